@@ -1,17 +1,19 @@
 import AquaVerif.Model.RainPartition
-import AquaVerif.Proofs.Basic
+import AquaVerif.Proofs.PowSq
 
 namespace Aqua
 variable {α : Type} [Field α] [LinearOrder α] [IsStrictOrderedRing α]
 
 /-- SCS curve-number split: for `0 < cn ≤ 100` and `0 ≤ p`, runoff lies in `[0, p]`
-and runoff + infiltration = rain. -/
-theorem scsSplit_bounds (p cn : α) (hp : 0 ≤ p) (hcn : 0 < cn) (hcn' : cn ≤ 100) :
-    0 ≤ (scsSplit p cn).1 ∧ (scsSplit p cn).1 ≤ p ∧ (scsSplit p cn).1 + (scsSplit p cn).2 = p := by
+and runoff + infiltration = rain.  Law used: `PowSqLaw` (`term ** 2 = term · term`). -/
+theorem scsSplit_bounds {F : Fn α} (hF : PowSqLaw F) (p cn : α) (hp : 0 ≤ p) (hcn : 0 < cn)
+    (hcn' : cn ≤ 100) :
+    0 ≤ (scsSplit F p cn).1 ∧ (scsSplit F p cn).1 ≤ p ∧
+      (scsSplit F p cn).1 + (scsSplit F p cn).2 = p := by
   have hS : 0 ≤ 25400 / cn - 254 := by
     rw [sub_nonneg, le_div_iff₀ hcn]; norm_num; nlinarith
   unfold scsSplit
-  simp only []
+  simp only [hF.pow_two]
   split_ifs with h
   · exact ⟨le_refl _, hp, by simp⟩
   · rw [not_le] at h
@@ -28,5 +30,15 @@ theorem scsSplit_bounds (p cn : α) (hp : 0 ≤ p) (hcn : 0 < cn) (hcn' : cn ≤
     · rw [div_le_iff₀ hden]
       norm_num at h ⊢
       nlinarith [mul_nonneg hp hS, mul_nonneg hS hS]
+
+/-- without rain the split is `(0, 0)` — the `term ≤ 0` branch, no law of `pow` involved -/
+theorem scsSplit_zero (F : Fn α) {cn : α} (hcn : 0 < cn) (hcn' : cn ≤ 100) :
+    scsSplit F 0 cn = (0, 0) := by
+  have hS : 0 ≤ 25400 / cn - 254 := by
+    rw [sub_nonneg, le_div_iff₀ hcn]; nlinarith
+  have h5 : (0:α) ≤ 5 / 100 * (25400 / cn - 254) := mul_nonneg (by norm_num) hS
+  unfold scsSplit
+  simp only []
+  rw [if_pos (by linarith)]
 
 end Aqua
